@@ -33,6 +33,7 @@ var registry = map[string]func(*core.Run){
 }
 
 func main() {
+	core.MaybeRunChild()
 	if len(os.Args) < 2 {
 		fmt.Fprintln(os.Stderr, "usage: vcheck <property> [--tier quick|thorough]")
 		os.Exit(2)
